@@ -617,25 +617,45 @@ theorem netbufWriteFree_acct (w : World) (wid : Nat) (h : EvAcct w) {w' : World}
 theorem httpDrop_same (w : World) (c hd : Nat) : EvSame w (httpDrop w c hd) :=
   ((release_same _ _).trans (release_same _ _)).trans ⟨rfl, rfl⟩
 
-theorem httpRequest_acct (w : World) (addrs : List AddrOutcome) (headlen s : Nat)
-    (h : EvAcct w) (hs : Side w.ev) (hf : Fresh w) : EvAcct (httpRequest w addrs headlen s).2 := by
+theorem httpRequest2_acct (w : World) (addrs : List AddrOutcome) (headlen s : Nat) (ho : Option Nat)
+    (h : EvAcct w) (hs : Side w.ev) (hf : Fresh w) : EvAcct (httpRequest2 w addrs headlen s ho).2 := by
   cases hm1 : (w.m.malloc httpCookieSize).1
-  · rw [httpRequest_eq_fail1 addrs headlen s hm1]; exact evAcct_same h ⟨rfl, rfl⟩
+  · rw [httpRequest2_eq_fail1 addrs headlen s ho hm1]; exact evAcct_same h ⟨rfl, rfl⟩
   · cases hm2 : ((w.m.malloc httpCookieSize).2.malloc (headlen + 1)).1
-    · rw [httpRequest_eq_fail2 addrs headlen s hm1 hm2]
+    · rw [httpRequest2_eq_fail2 addrs headlen s ho hm1 hm2]
       exact evAcct_same h (EvSame.trans ⟨rfl, rfl⟩ (release_same _ _))
-    · rw [httpRequest_eq_tail addrs headlen s hm1 hm2]
+    · rw [httpRequest2_eq_tail addrs headlen s ho hm1 hm2]
       unfold httpTail
-      have g := networkConnect_acct (httpW2 w headlen) addrs none s (evAcct_same h ⟨rfl, rfl⟩) hs
+      have g := networkConnect_acct (httpW2 w headlen ho) addrs none s (evAcct_same h ⟨rfl, rfl⟩) hs
         (fun x hx => by
           have := hf x hx
           show x < ((w.m.malloc httpCookieSize).2.malloc (headlen + 1)).2.n
           simp only [Mem.malloc]; omega)
-      rcases hr : networkConnect (httpW2 w headlen) addrs none s with ⟨o, w3⟩
+      rcases hr : networkConnect (httpW2 w headlen ho) addrs none s with ⟨o, w3⟩
       rw [hr] at g
       cases o
       · exact evAcct_same g (httpDrop_same _ _ _)
       · exact evAcct_same g ⟨rfl, rfl⟩
+
+theorem httpRequest_acct (w : World) (addrs : List AddrOutcome) (headlen s : Nat)
+    (h : EvAcct w) (hs : Side w.ev) (hf : Fresh w) : EvAcct (httpRequest w addrs headlen s).2 :=
+  httpRequest2_acct w addrs headlen s none h hs hf
+
+theorem httpsRequest_acct (w : World) (addrs : List AddrOutcome) (headlen s hostlen : Nat)
+    (h : EvAcct w) (hs : Side w.ev) (hf : Fresh w) : EvAcct (httpsRequest w addrs headlen s hostlen).2 := by
+  cases hm0 : (w.m.malloc (hostlen + 1)).1
+  · rw [httpsRequest_eq_fail0 addrs headlen s hostlen hm0]; exact evAcct_same h ⟨rfl, rfl⟩
+  · rw [httpsRequest_eq_next addrs headlen s hostlen hm0]
+    have g := httpRequest2_acct (httpsW1 w hostlen) addrs headlen s (some w.m.n) (evAcct_same h ⟨rfl, rfl⟩) hs
+      (fun x hx => by
+        have := hf x hx
+        show x < (w.m.malloc (hostlen + 1)).2.n
+        simp only [Mem.malloc]; omega)
+    rcases hr : httpRequest2 (httpsW1 w hostlen) addrs headlen s (some w.m.n) with ⟨o, w2⟩
+    rw [hr] at g
+    cases o
+    · exact evAcct_same g (release_same _ _)
+    · exact g
 
 theorem httpRequestCancel_acct (w : World) (hid : Nat) (h : EvAcct w) (hs : Side w.ev) {w' : World}
     (hc : httpRequestCancel w hid = some w') : EvAcct w' := by
@@ -644,9 +664,15 @@ theorem httpRequestCancel_acct (w : World) (hid : Nat) (h : EvAcct w) (hs : Side
   · cases hc
   · rename_i x _
     have key : ∀ w1 : World, EvAcct w1 →
-        EvAcct { release (release w1 x.head) x.cookie with
-                   https := (release (release w1 x.head) x.cookie).https.filter (·.cookie != hid) } :=
-      fun w1 g1 => evAcct_same g1 (((release_same _ _).trans (release_same _ _)).trans ⟨rfl, rfl⟩)
+        EvAcct { release (release (match x.host with | some sh => release w1 sh | none => w1) x.head) x.cookie with
+                   https := (release (release (match x.host with | some sh => release w1 sh | none => w1) x.head)
+                     x.cookie).https.filter (·.cookie != hid) } := by
+      intro w1 g1
+      have g2 : EvAcct (match x.host with | some sh => release w1 sh | none => w1) := by
+        cases x.host with
+        | none => exact g1
+        | some sh => exact evAcct_same g1 (release_same _ _)
+      exact evAcct_same g2 (((release_same _ _).trans (release_same _ _)).trans ⟨rfl, rfl⟩)
     cases hcn : x.conn with
     | none =>
       rw [hcn] at hc
@@ -707,6 +733,7 @@ theorem evAcct_step (w : World) (op : Op) (h : Inv w) (ha : EvAcct w) : EvAcct (
   | nbwFree x => exact evAcct_orSame ha (fun w' hc => netbufWriteFree_acct w x ha hc)
   | http addrs headlen s => exact httpRequest_acct w addrs headlen s ha hs hf
   | httpCancel c => exact evAcct_orSame ha (fun w' hc => httpRequestCancel_acct w c ha hs hc)
+  | https a l s hl => exact httpsRequest_acct w a l s hl ha hs hf
 
 theorem evAcct_teardownN : ∀ (n : Nat) (w : World), Inv w → EvAcct w → EvAcct (teardownN n w)
   | 0, _, _, ha => ha
